@@ -2,8 +2,13 @@
 package props
 
 import (
+	"crypto/sha256"
+	"encoding/hex"
+	"encoding/json"
 	"fmt"
 	"math"
+	"os"
+	"path/filepath"
 	"sort"
 	"strconv"
 	"strings"
@@ -449,3 +454,62 @@ func availMS(astS int64, end uint64, ts uint64, atoS float64) int64 {
 }
 
 var _ = core.Sig
+
+// ---------------------------------------------------------------------------------------
+// Generated VoD worlds (DESIGN.md §3.1). A small fixed family of generated assets (index k) is
+// used so that the number of VoD roots and cached server instances per worker stays bounded; the
+// full spec travels in the scenario, so a replay file is self-contained.
+
+const genFamily = 64
+
+type GenWorld struct {
+	K    int          `json:"k"`
+	Spec hx.AssetSpec `json:"spec"`
+}
+
+// genSpec returns generated asset k of the family (class good: must be served).
+func genSpec(k int) hx.AssetSpec {
+	rng := core.NewRng(0x9e3779b9 + uint64(k)*7919)
+	return hx.RandomAssetSpec(rng, hx.GenOpts{Name: fmt.Sprintf("gen/a%02d", k), Tag: uint32(1000 + k), Class: "good", MaxSegs: 8, MaxFrames: 600})
+}
+
+var genRootMu sync.Mutex
+
+// genRoot materialises the generated asset below a content-addressed VoD root under the system temp
+// directory (created atomically; shared by all workers; rebuilt on demand).
+func genRoot(g GenWorld) string {
+	genRootMu.Lock()
+	defer genRootMu.Unlock()
+	b, _ := json.Marshal(g.Spec)
+	sum := sha256.Sum256(b)
+	root := filepath.Join(os.TempDir(), "verif-genvod-v1", hex.EncodeToString(sum[:8]))
+	if _, err := os.Stat(filepath.Join(root, ".ok")); err == nil {
+		return root
+	}
+	tmp, err := os.MkdirTemp(os.TempDir(), "verif-genvod-tmp-")
+	if err != nil {
+		panic("harness: " + err.Error())
+	}
+	if err := hx.GenAssetInRoot(tmp, g.Spec); err != nil {
+		panic("harness: cannot generate asset: " + err.Error())
+	}
+	if err := os.WriteFile(filepath.Join(tmp, ".ok"), []byte("ok"), 0o644); err != nil {
+		panic("harness: " + err.Error())
+	}
+	_ = os.MkdirAll(filepath.Dir(root), 0o755)
+	if err := os.Rename(tmp, root); err != nil {
+		// another worker was faster
+		os.RemoveAll(tmp)
+		if _, err2 := os.Stat(filepath.Join(root, ".ok")); err2 != nil {
+			panic("harness: cannot publish generated VoD root: " + err.Error())
+		}
+	}
+	return root
+}
+
+// pickWorld draws the VoD world of a timeline scenario: a bundled asset, or (with probability
+// pGen) generated asset k. onlyWith filters representations kinds needed ("audio", "video", "").
+func pickGenWorld(rng *core.Rng) *GenWorld {
+	k := rng.Intn(genFamily)
+	return &GenWorld{K: k, Spec: genSpec(k)}
+}
